@@ -18,6 +18,12 @@ CLAIMS = {
         text="For every reachable state of the bounded model, audit(s,e) for all pairs 0 <= s < e <= epoch is verified by audit_verify against the digests the publishes returned (which C01 ties to the reference hash), and out-of-range requests must be refused; TLC validates every outcome against AuditDefined and the published root chain."),
     "C20": dict(cat="model_checking", design="5/C20", technique="TLA+ spec AkdDirectory (Tombstone action) + TLC; replay through StorageManager::tombstone_value_states; full sweep validated by TLC trace validation",
         text="TLC explores Tombstone(label, cut) for every cut-off before the label's latest update interleaved with publishes and proves the committed leaf set never changes; the replays run the full observation sweep (epoch hash, lookups, histories in both modes with all parameters, all audits, further publishes) and TLC validates that nothing committed changed, AllowMissingValues reports the same versions/epochs with empty values, and Default rejects exactly the histories containing a tombstoned entry."),
+    "C05": dict(cat="model_checking", design="5/C05", technique="TLA+ spec AkdTrie (transcribed insertion, proof generation, verifiers) + TLC over all leaf subsets in the bound; adversarial prover replayed with real node records against akd's verifiers; verdict sets validated by TLC (TraceTrie)",
+        text="TLC enumerates every leaf subset of the depth-3 universe within the bound and proves MemComplete, NonMemComplete, MemSound and NonMemSound of the transcribed verifiers against an adversary that uses every tree node as claimed anchor with altered children, siblings, directions, hashes, paths and labels; each tree is rebuilt with the real Azks over stretched 256-bit labels, every candidate is given to the real verify_membership / verify_nonmembership, and TLC validates that the set of accepted candidates equals the specification's and proves nothing false."),
+    "C09": dict(cat="model_checking", design="5/C09", technique="TLA+ spec AkdTrie (auditor rebuild transcribed) + TLC over all small trees x adversarial (unchanged, inserted) sets; replay against the real verify_consecutive_append_only / audit_verify; validated by TLC (TraceTrie, TraceDirectory)",
+        text="TLC proves AuditSound (accepted => every leaf committed by the start hash is still committed by the end hash) for every depth-3 tree with <= 3 leaves and every adversarial proof assembled from its real nodes and arbitrary inserted elements (shadowing, extending, duplicated, overlapping labels), with the end hash chosen by the server; every candidate is run through the real auditor and TLC validates verdict, surviving nodes and soundness; inconsistent hash/epoch/proof lists and replaced digests are replayed on honest proofs and must be rejected."),
+    "C17": dict(cat="model_checking", design="5/C17", technique="TLA+ spec AkdLabels (bit-string semantics) + TLC proving its algebraic laws exhaustively on small domains; all real NodeLabel / AzksElementSet results on stretched labels validated by TLC (TraceLabels)",
+        text="AkdLabels is the bit-string meaning; TLC proves its laws for all labels <= 6 bits and all small sets, and validates the recorded results of the real is_prefix_of, get_longest_common_prefix, get_prefix, get_prefix_ordering, cmp for all pairs of labels <= 6 model bits under 10-40 stretch maps (real lengths 0..256 around every byte boundary, adversarial fillers, garbage beyond label_len) and of AzksElementSet partition / common prefix / contains_prefix in both representations for all small sets."),
 }
 
 def main():
